@@ -297,7 +297,7 @@ def classify_exception(e):
     return 6
 
 
-def run_history(world, history, want_values=False):
+def run_history(world, history, want_values=False, after_call=None):
     """execute a history; returns (observations, objects, values).  An observation is
     (result class, [label indices], [occupancy mask of every object])."""
     objs = [world.make()]
@@ -333,6 +333,8 @@ def run_history(world, history, want_values=False):
             obs.append((rc, trace, [occupancy(q) for q in objs]))
             if want_values:
                 values.append((val, exc))
+            if after_call is not None:
+                after_call(len(obs) - 1, objs)
     return obs, objs, values
 
 
